@@ -3,7 +3,7 @@ package main
 func init() {
 	register(prop{
 		ID: "C04", Pkg: "c04",
-		Rule:        "e2e: rapid draws (direction, link in {in-memory, io pipe, SSE, streamable stateful +-event store/JSON}, <=24 steps over call(cancel|deadline ctx) / cancel(i) / release(i) / race(i: response and cancellation in one step) / sleep / block / unblock (a parked notification handler holds the peer's dispatcher so later calls are cancelled before dispatch)); handlers park on gates and record whether their context was cancelled. nested: the cancelled call is a server->client request made inside a request handler, over every link incl. streamable clients without a standalone stream. stall: a scripted peer that stops/resumes draining the transport, late responses, cancellation while stalled. Oracle: zero virtual time between cancellation and return, context error, exactly the cancelled request's handler cancelled, exactly one notice per cancelled id, others untouched, fresh calls work both ways. Non-trivial = >=2 calls with a strict non-empty subset cancelled (e2e) or a cancellation while the transport is stalled (stall); distinct by step-kind string.",
+		Rule:        "TestC04_RawCaller: a raw ndjson peer calls parked tools of a real server under ids it chooses (small and > 2^53 integers, numeric-looking strings) and cancels by id: exactly the handler of that id (same JSON type, exact value) is cancelled. e2e: rapid draws (direction, link in {in-memory, io pipe, SSE, streamable stateful +-event store/JSON}, <=24 steps over call(cancel|deadline ctx) / cancel(i) / release(i) / race(i: response and cancellation in one step) / sleep / block / unblock (a parked notification handler holds the peer's dispatcher so later calls are cancelled before dispatch)); handlers park on gates and record whether their context was cancelled. nested: the cancelled call is a server->client request made inside a request handler, over every link incl. streamable clients without a standalone stream. stall: a scripted peer that stops/resumes draining the transport, late responses, cancellation while stalled. Oracle: zero virtual time between cancellation and return, context error, exactly the cancelled request's handler cancelled, exactly one notice per cancelled id, others untouched, fresh calls work both ways. Non-trivial = >=2 calls with a strict non-empty subset cancelled (e2e) or a cancellation while the transport is stalled (stall); distinct by step-kind string.",
 		Assumptions: []string{"virtual time (testing/synctest): 'promptly' means zero elapsed virtual time at quiescence", "in the race step either the real response or the context error is accepted for that call"},
 		LevelText:   "Generated cancellation schedules over real endpoints (precision: only the matching handler's context ends) and over a scripted stalling transport (promptness although the notice cannot be delivered; notices name exactly the cancelled ids; helper goroutines gone after the 5s budget).",
 		LevelNote:   "Trusts handler-side recording through gates and synctest quiescence.",
@@ -12,6 +12,7 @@ func init() {
 		Runs: []run{
 			{Test: "TestC04_E2E", Quick: 700, Thorough: 40000},
 			{Test: "TestC04_Stall", Quick: 1500, Thorough: 75000},
+			{Test: "TestC04_RawCaller", Quick: 2000, Thorough: 100000},
 			{Test: "TestC04_Nested", Quick: 600, Thorough: 40000},
 		},
 	})
